@@ -103,6 +103,16 @@ pub fn templates() -> Vec<(String, Module)> {
         vec![("mk", func(&[], vec![sv("x", s("captured by returned closure")), sv("c", C::Closure(vec![], vec![sv("tmp", s("junk in closure")), C::Return(b(rv("x")))])), C::Return(b(rv("c")))]))],
     );
     t("closure-only-frame-reference", vec![sv("x", s("captured")), log2("r", C::DynCall(b(C::Closure(vec![], vec![sv("a", s("alloc 1")), sv("bb", C::CreateTable), C::Return(b(rv("x")))])), vec![]))], vec![]);
+    // a closure that only its own, *suspended* frame references: it was called as a temporary and is waiting for a callee that allocates
+    t(
+        "closure-suspended-frame",
+        vec![log2("r", C::DynCall(b(call("mk", vec![])), vec![])), log2("r2", C::DynCall(b(C::Closure(vec![], vec![sv("y", call("churn", vec![])), C::Return(b(rv("y")))])), vec![]))],
+        vec![
+            ("mk", func(&[], vec![sv("x", s("captured by the waiting closure")), C::Return(b(C::Closure(vec![], vec![sv("y", call("churn", vec![])), sv("z", call("churn2", vec![])), C::Return(b(rv("x")))])))])),
+            ("churn", func(&[], vec![sv("a", s("alloc 1")), sv("bb", C::CreateTable), C::Return(b(rv("a")))])),
+            ("churn2", func(&[], vec![sv("c", s("alloc 2")), C::Return(b(call("churn", vec![])))])),
+        ],
+    );
     t(
         "closure-nested",
         vec![
